@@ -690,9 +690,9 @@ def removal_internals(run: Run, model: PyModel, rid: str) -> None:
         own_tag = O("tag:own", notes=None)
         prop_shared = O("prop:shared", links=None)
         prop_own = O("prop:own", links=None)
-        n1 = O("note:1")
-        n2 = O("note:2")
-        other = O("note:other-page")
+        n1 = O("note:1", zid="240101#00", body="240101#00 one", id=1, todo_status=None, todo_priority=None, create_date=Opaque("d"), modify_date=Opaque("d"))
+        n2 = O("note:2", zid=None, body="", id=2, todo_status=None, todo_priority=None, create_date=None, modify_date=None)
+        other = O("note:other-page", zid="240101#09", body="x", id=9)
         st.obj(shared_tag).fields["notes"] = L(n1, other)
         st.obj(own_tag).fields["notes"] = L(n1)
         pl1 = O("plink:1", prop=prop_shared)
